@@ -295,13 +295,16 @@ def constructor_cases(rng):
           ('spur elastic_modulus<0', lambda: spur(elastic_modulus=st(-1e9)), 'reject'),
           ('helical teeth=9', lambda: hel(n_teeth=9), 'reject'), ('helical helix=90deg', lambda: hel(helix_angle=U.Angle(90, 'deg')), 'reject'),
           ('helical helix=pi/2 rad', lambda: hel(helix_angle=U.Angle(math.pi / 2 * (1 + 1e-9), 'rad')), 'reject'),
-          ('helical helix=120deg', lambda: hel(helix_angle=ang(120)), 'reject'), ('helical helix=89.9deg', lambda: hel(helix_angle=U.Angle(89.9, 'deg')), 'accept'),
+          ('helical helix=120deg', lambda: hel(helix_angle=ang(120)), 'reject'),
+          ('helical helix=280deg', lambda: hel(helix_angle=U.Angle(280, 'deg')), 'reject'), ('helical helix=1 rot', lambda: hel(helix_angle=U.Angle(1, 'rot')), 'reject'),
+          ('helical helix=725deg', lambda: hel(helix_angle=U.Angle(725, 'deg')), 'reject'), ('helical helix=6 rad', lambda: hel(helix_angle=U.Angle(6, 'rad')), 'reject'), ('helical helix=89.9deg', lambda: hel(helix_angle=U.Angle(89.9, 'deg')), 'accept'),
           ('helical helix=0', lambda: hel(helix_angle=U.Angle(0, 'deg')), 'accept'),
           ('helical elastic_modulus<0', lambda: hel(elastic_modulus=st(-5)), 'reject')]
     for pa, mx in ((14.5, 16), (20, 25), (25, 35), (30, 45)):
         wg = lambda pa=pa, **kw: mo.WormGear(**dict(dict(name='w', n_starts=2, inertia_moment=J, pressure_angle=U.Angle(pa, 'deg'), helix_angle=U.Angle(10, 'deg')), **kw))
         ww = lambda pa=pa, **kw: mo.WormWheel(**dict(dict(name='w', n_teeth=30, inertia_moment=J, pressure_angle=U.Angle(pa, 'deg'), helix_angle=U.Angle(10, 'deg')), **kw))
         over = mx + rng.choice([0.01, 1, 20])
+        C.append((f'wheel pa={pa} with module and face width, helix={over} (above the worm limit)', lambda ww=ww, over=over: ww(helix_angle=U.Angle(over, 'deg'), module=U.Length(1, 'mm'), face_width=U.Length(5, 'mm')), 'reject'))
         C.append((f'worm pa={pa} with reference diameter, helix={over} (above its limit)', lambda wg=wg, over=over: wg(helix_angle=U.Angle(over, 'deg'), reference_diameter=U.Length(12, 'mm')), 'reject'))
         # the same pressure angle written in another unit (harness conversion): the worm limit must not depend on it
         pu = rng.choice(['rad', 'rot', 'arcmin', 'arcsec'])
